@@ -80,9 +80,13 @@ class Checker(C.BaseChecker):
         utab, _ = C.unit_rows(rec.tables["unit_data"]) if "unit_data" in rec.tables else ({}, [])
         flagged = C.flagged_by_outlier_model(utab)
         out = []
+        unadj = {}
+        for b_ in rec.extra["mon"].get("interval_bounds", []):
+            if "monitor_error" not in b_:
+                unadj[(b_["estimand"], b_["alpha"])] = b_
         for cap in rec.extra["mon"].get("gaussian_agg", []):
             if "monitor_error" in cap:
-                out.append(self.v("monitor", str(cap)))
+                st.probes["monitor_unavailable"] += 1
                 continue
             keys, alpha, e = cap["aggregate"], cap["alpha"], cap["estimand"]
             mb = cap["modeled_bounds"]
@@ -111,7 +115,11 @@ class Checker(C.BaseChecker):
             non_keys = C.key_tuples(non, keys)
             nw = non[wcol].to_numpy(dtype=float)
             nres = non[f"results_{e}"].to_numpy(dtype=float)
-            ul, uu = cap["unadj_lower"], cap["unadj_upper"]
+            ub_ = unadj.get((e, alpha))
+            if ub_ is None or len(ub_["lower"]) != len(non):
+                st.probes["monitor_unavailable"] += 1
+                continue
+            ul, uu = ub_["lower"], ub_["upper"]
             rows = {tuple(r[k] for k in keys): r for r in mb.to_dict("records")}
             used = set()
             sigma_by_source = {}
